@@ -5,10 +5,8 @@ From H2V Require Import Base.Bytes Base.MachineInt Base.Result Gen.GenConsts Gen
      Impl.Huffman Impl.Hpack Spec.Rfc7541Huffman Spec.Rfc7541.
 Local Open Scope N_scope.
 
-(* same abstraction as in C03 *)
-Definition abs (st : hpack_state) : dtable :=
-  mkDT (rev (map (fun f => (f_key f, f_value f)) (h_dynamic st))) (h_max st) (h_max_settings st).
-Definition triple_of (f : field) : hfield := (f_key f, f_value f, f_sens f).
+(* same abstraction as in C03: [abs], [triple_of] live in Proofs/HpackDefs.v *)
+From H2V Require Export Proofs.HpackDefs.
 
 (* ---- what a connection does to an encoder ---- *)
 Inductive enc_op : Type :=
